@@ -163,6 +163,21 @@ def lockstep(ctx, m):
         ok = k[0] == "agg" and len(k[3]) == 2 and same(k[3][0], kf(key, 1)) and same(k[3][1], kf(key, 2))
     ctx.check(ok, "lockstep", "remove|prio", ctx.loc(rem), "remove: priority map entry (key.1, key.2) removed, once, unconditionally",
               "remove: priority-map removal is not `remove(&(key.1, key.2))` exactly once")
+    # (a defensive `if the key was not filed { return }` is accepted: every update below may depend on the priority map's own
+    #  removal having found the entry - all three structures then still move together)
+    removed = pc[0].result if len(pc) == 1 else None
+
+    def found_entry(a):
+        if removed is None:
+            return False
+        if a[0] == "variant" and a[1] == removed and a[2] == ("Some",):
+            return True
+        if a[0] == "bool" and a[1][0] == "call" and a[1][2] and a[1][2][0] == removed:
+            return (a[1][4] == "is_none" and a[2] is False) or (a[1][4] == "is_some" and a[2] is True)
+        return False
+
+    def unconditional(x):      # (shadows the strict version for the removal rules)
+        return all(found_entry(a) for a in x.guards)
     ups = level_updates(q, L)
     keyed = all(same(u[4][1], kf(key, 1)) and u[4][0] == "get_mut" for u in ups)
     vol_up = [u for u in ups if u[1] == "0" and u[2] == "Sub" and same(u[3], vol) and unconditional(u[0])]
@@ -180,14 +195,17 @@ def lockstep(ctx, m):
             if is_const(v, 0) and u[0] == "field" and u[2] == "1" and level_base(u, L) is not None:
                 return True
         return False
-    ok = len(drop) == 1 and same(drop[0].args[1], kf(key, 1)) and any(count_zero(a) for a in drop[0].guards)
+    ok = len(drop) == 1 and same(drop[0].args[1], kf(key, 1)) and any(count_zero(a) for a in drop[0].guards) and all(count_zero(a) or found_entry(a) for a in drop[0].guards)
     ctx.check(ok, "lockstep", "remove|drop-level", ctx.loc(rem), "remove: the level is dropped only when its order count reached 0",
               "remove: level dropped under %s (expected: count == 0)" % (drop[0].gtext() if drop else "no drop site"))
-    ok, tw = total_update(q, "Sub", vol)
+    tw = [w for w in q.writes(field=T) if w.root[0] == "param"]
+    ok = len(tw) == 1 and unconditional(tw[0]) and bin_of(tw[0].val) and bin_of(tw[0].val)[0] == "Sub" and same(bin_of(tw[0].val)[2], vol) and fld(bin_of(tw[0].val)[1], T)
     ctx.check(ok, "lockstep", "remove|total", ctx.loc(rem), "remove: side total -= vol, unconditionally",
               "remove: side total is not decreased by vol exactly once: %s" % "; ".join(w.text() for w in tw))
 
     # ---- remove volume
+    def unconditional(x):
+        return not x.guards
     q = m.q(rvol)
     price, vol = params(q)[1:3]
     ups = level_updates(q, L)
